@@ -877,6 +877,7 @@ MUTANTS = [
     dict(name='c18-middle-cut-does-not-test-the-right-leftover', prop='C18', clause='D3', edits=[('src/tbbmalloc/backend.cpp',
         "                        && (rightNew == rightCurr || (rightCurr - rightNew) >= FreeBlock::minBlockSize))\n                    fBlock = curr;",
         "                        )\n                    fBlock = curr;")]),
+    dict(name='c03-seed5-scan-handler-deletes-the-body-it-handed-over', prop='C03', clause='D11', edits=[('include/oneapi/tbb/parallel_scan.h', '            temp_body.reverse_join(body);\n\n            auto& pass1 = *alloc.new_object<start_pass1_type>(/*m_return_slot=*/root, range, temp_body, partitioner, w_ctx, alloc);\n\n            execute_and_wait(pass1, context, w_ctx, context);\n            if( root ) {\n                root->prepare_for_execution(temp_body, nullptr, &body);\n                w_ctx.reserve();\n                execute_and_wait(*root, context, w_ctx, context);\n            } else {\n                temp_body.assign_to(body);\n                temp_body.finish_construction(nullptr, range, nullptr);\n                alloc.delete_object<final_sum_type>(&temp_body);\n            }\n', '            try_call( [&] {\n                temp_body.reverse_join(body);\n\n                auto& pass1 = *alloc.new_object<start_pass1_type>(/*m_return_slot=*/root, range, temp_body, partitioner, w_ctx, alloc);\n\n                execute_and_wait(pass1, context, w_ctx, context);\n                if( root ) {\n                    root->prepare_for_execution(temp_body, nullptr, &body);\n                    w_ctx.reserve();\n                    execute_and_wait(*root, context, w_ctx, context);\n                } else {\n                    temp_body.assign_to(body);\n                    temp_body.finish_construction(nullptr, range, nullptr);\n                }\n            } ).on_exception( [&] {\n                alloc.delete_object<final_sum_type>(&temp_body);\n            } );\n            if( !root ) {\n                alloc.delete_object<final_sum_type>(&temp_body);\n            }\n')]),
     dict(name='c01-seed3-run-and-wait-handle-epilogue-on-exception-only', prop='C01', clause='D9', edits=[('include/oneapi/tbb/task_group.h',
         """            execute_and_wait(*acs::release(h), context(), m_wait_vertex.get_context(), context());
         }).on_completion([&] {""",
